@@ -4,6 +4,7 @@
 # The scratch copy lives under /tmp and is removed afterwards.
 set -e
 PATCH="$1"; shift
+case "$PATCH" in -R:*) ;; /*) ;; *) PATCH="$(pwd)/$PATCH" ;; esac
 TIER="${VERIF_TIER:-quick}"
 D=$(mktemp -d /tmp/mut.XXXXXX)
 trap 'rm -rf "$D"' EXIT
